@@ -17,6 +17,7 @@ func init() {
 			"every Ack of the consumed message is edge-dominated by (chain error == nil) and by (publish error == nil) in the same goroutine; every Publish is edge-dominated by (chain error == nil); " +
 			"every return path settles the message and no Ack follows a Nack; the recover closure is deferred before the chain and publish calls and Nacks on every path of the panicked edge; " +
 			"the publish helper returns nil only when nothing was to publish or Publish returned nil; the no-publisher handler's publisher never returns nil; the run loop starts exactly one dispatch per received message. " +
+			"What the dispatch function writes per message is its own (no map or field of the shared handler record): any number of messages may be in flight on one handler. The router life-cycle obligations (C10) are decided here too, because a dispatch that cannot start — the in-flight counter's mutex held across somebody's wait — settles nothing. " +
 			"Not decided: behaviour of user handlers/middlewares, scheduling.",
 		Assumptions: commonAssumptions,
 	})
@@ -37,6 +38,11 @@ func runC02(c *Check) {
 	// the router's own subscriber decorator stands between the subscriber and the run loop: what it takes from the
 	// subscription it hands over (decided as C07.O7; a message it drops is neither handled nor settled)
 	c07Decorator(c, "C02")
+	// every message taken is settled: the dispatch registers each invocation in the router-wide in-flight counter under its
+	// mutex, so nothing but Close's wait helper may hold that mutex across a wait (a dispatch that cannot start settles nothing)
+	if r2 := c.routerRoles2("C02.M10"); r2 != nil {
+		c10Lifecycle(c, "C02.M10", r2)
+	}
 }
 
 // c02Core holds O1..O6; shared with C01.
@@ -598,7 +604,64 @@ func c02HelperResult(c *Check, id string, r *RouterRoles, pubErrCalls []ssa.Call
 				}
 			})
 		}
-		c.Report(true, id, "MESSAGE-EDITS-SCANNED", H, H.Pos(), "dispatch function and publish helper", fmt.Sprintf("%d assignments to message fields / metadata", nw))
+		// … and sets no context itself: the handler context is attached by the one decorator function (a context put
+		// back afterwards takes the handler values away from a publisher that keeps the message)
+		for _, f := range append(WithAnon(r.Dispatch), H) {
+			for _, cl := range CallsTo(f, nSetContext) {
+				nw++
+				c.Report(false, id, "ROUTER-LEAVES-MESSAGES-AS-THEY-ARE", f, cl.Pos(), "SetContext in the dispatch function", "the dispatch function and the publish helper set no message context themselves (the handler context is attached by the decorator function, once, and stays)")
+			}
+		}
+		c.Report(true, id, "MESSAGE-EDITS-SCANNED", H, H.Pos(), "dispatch function and publish helper", fmt.Sprintf("%d assignments to message fields / metadata / contexts", nw))
+		// several messages may be in flight on one handler: what the dispatch function writes per message is its own
+		// (a map or a field of the handler record written per message is shared by all of them)
+		isShared := func(v ssa.Value) bool {
+			return AnyOrigin(v, func(o ssa.Value) bool {
+				u, ok := o.(*ssa.UnOp)
+				if !ok || u.Op != token.MUL {
+					return false
+				}
+				if _, isG := u.X.(*ssa.Global); isG {
+					return true
+				}
+				fld, base := FieldOf(u.X)
+				return fld != nil && base != nil && !isLocalAlloc(base)
+			})
+		}
+		ns := 0
+		seenF := map[*ssa.Function]bool{}
+		for _, f := range append(WithAnon(r.Dispatch), WithAnon(H)...) {
+			if f == nil || seenF[f] {
+				continue
+			}
+			seenF[f] = true
+			AllInstrs(f, func(in ssa.Instruction) {
+				bad := ""
+				switch x := in.(type) {
+				case *ssa.MapUpdate:
+					if isShared(x.Map) {
+						bad = "update of a map kept in the handler / router record"
+					}
+				case *ssa.Store:
+					if fld, base := FieldOf(x.Addr); fld != nil && base != nil && !isLocalAlloc(base) {
+						if n := NamedOf(base.Type()); n != nil && n.Obj().Pkg() != nil && n.Obj().Pkg().Path() == msgPkg && (n.Obj().Name() == "handler" || n.Obj().Name() == "Router") {
+							bad = "store to " + n.Obj().Name() + "." + fld.Name()
+						}
+					}
+				case ssa.CallInstruction:
+					for _, b := range []string{"delete", "clear"} {
+						if args, ok := IsBuiltinCall(valueOfCall(x), b); ok && len(args) > 0 && isShared(args[0]) {
+							bad = b + " on a map kept in the handler / router record"
+						}
+					}
+				}
+				if bad != "" {
+					ns++
+					c.Report(false, id, "PER-MESSAGE-STATE-NOT-SHARED", f, in.Pos(), bad, "the dispatch function writes only to state of its own call: any number of messages may be in flight on one handler, and a map or field of the shared handler record written per message is written by all of them at once")
+				}
+			})
+		}
+		c.Report(true, id, "PER-MESSAGE-WRITES-SCANNED", r.Dispatch, r.Dispatch.Pos(), "dispatch function and publish helper", fmt.Sprintf("%d writes to shared handler state", ns))
 	}
 
 }
@@ -835,4 +898,12 @@ func exportedOrPrivateField(_ string, H *ssa.Function) func(ssa.Value) bool {
 		f := LoadedField(v)
 		return f != nil && f.Type().String() == msgPkg+".Publisher"
 	}
+}
+
+// isLocalAlloc: v is (on every origin) a cell allocated by the function that uses it.
+func isLocalAlloc(v ssa.Value) bool {
+	return AllOrigins(v, func(o ssa.Value) bool {
+		_, ok := o.(*ssa.Alloc)
+		return ok
+	})
 }
